@@ -192,6 +192,40 @@ CLAIMS["C14"] = (
     TRUSTED,
     "DESIGN.md §4 C14")
 
+CLAIMS["C01"] = (
+    "static analysis: composition of the typer's and the HLSL exporter's operator tables; THIR value-origin slices of "
+    "every child position of every emitted node back to the same child of the IR node; literal-kind and intrinsic-name "
+    "table agreement; swizzle tables",
+    "Decides the structural necessary conditions of meaning preservation: the emitted operator is the source operator "
+    "for all 37 operators; in all 18 expression arms and 15 statement arms each child of the syntax node comes from the "
+    "same child of the IR node (swapped / duplicated / dropped operands are reported); literal kinds round-trip through "
+    "typer and exporter; all 238 named intrinsics are exported under a declared name; swizzle letters are inverse; "
+    "implicit conversions become explicit casts. Does NOT decide bit-identical evaluation (needs evaluators of RSSL and HLSL).",
+    TRUSTED,
+    "DESIGN.md §4 C01")
+CLAIMS["C02"] = (
+    "static analysis: the C01 rules on the MSL exporter; sibling agreement of the MSL and HLSL operator tables; "
+    "declared-vs-passed identifier tables of implicit parameters; visitor totality of the global usage analysis; THIR "
+    "shape of the out/inout trampoline",
+    "Decides the structural necessary conditions for the Metal back end: operator / child-position / literal tables as "
+    "for HLSL; every implicit parameter is declared and passed under the same identifier, in the same order, derived "
+    "from the transitive usage analysis, whose visitors recurse into all 41 sub-expression positions of the IR; every "
+    "user call appends the global arguments; out/inout parameters are copied in (inout only) and copied back after the "
+    "call. Does NOT decide Metal evaluation results, helper function bodies or address-space correctness.",
+    TRUSTED,
+    "DESIGN.md §4 C02")
+CLAIMS["C04"] = (
+    "static analysis: disjointness of exporter-built AST variants and formatter-refused variants; writer/reader "
+    "agreement of attribute names, register letters, space prefix, topology strings and literal suffixes; the C09 "
+    "parenthesis/adjacency rules and C15 name-provenance rules re-evaluated for the HLSL path",
+    "Decides that the emitted DirectX HLSL stays inside the input language and re-reads as written: no refused node "
+    "kind is emitted, every emitted attribute / register / topology spelling is one the front end accepts and maps "
+    "back, expressions re-group identically (1146 parent/child instances), adjacent operators do not merge, "
+    "declaration names go through NameMap. Does NOT decide the byte-for-byte fixpoint or slot re-derivation (run-time "
+    "string comparison; float printing).",
+    TRUSTED,
+    "DESIGN.md §4 C04")
+
 NOT_YET = "rules for this property are not built yet in this round (see DESIGN.md §10 build order); no claim is made"
 
 
